@@ -20,7 +20,9 @@ pub struct ShardCase {
     pub choices: Vec<u16>,
     pub delays: Vec<(u8, u16)>,
     pub controlled: bool,
-    /// a worker stalled for tens of milliseconds in one call: (call index, command occurrence, ms)
+    /// a worker stalled for tens of milliseconds in one call: (call index, command occurrence, ms);
+    /// a value of 200 or more stands for six times as many milliseconds (a worker that is
+    /// descheduled for more than a second)
     #[serde(default)]
     pub stall: Option<(u8, u8, u8)>,
 }
@@ -43,7 +45,7 @@ pub fn check_shards(c: &ShardCase) -> CaseResult {
         if let Some((call, occ, ms)) = c.stall {
             if call as usize + 1 == call_no && ndets > 0 {
                 // no gates in this call: one Distances command simply takes very long
-                return Some(sched::install(Plan { steps: vec![], delays: vec![("store.cmd.begin", occ as u32 % (ndets * shards) as u32, ms as u32 * 1000)], gate_timeout_ms: 1 }));
+                return Some(sched::install(Plan { steps: vec![], delays: vec![("store.cmd.begin", occ as u32 % (ndets * shards) as u32, ms as u32 * if ms >= 200 { 6000 } else { 1000 })], gate_timeout_ms: 1 }));
             }
         }
         if !c.controlled || ndets == 0 {
@@ -97,7 +99,7 @@ pub fn check_shards(c: &ShardCase) -> CaseResult {
 }
 
 pub fn shard_case(kind: crate::trk::Kind) -> impl Strategy<Value = ShardCase> {
-    (history_opts(kind, true, 30, false), 1usize..=8, 1usize..=4, proptest::collection::vec(any::<u16>(), 64), proptest::collection::vec((0u8..16, 0u16..800), 0..3), proptest::bool::weighted(0.85), prop_oneof![12 => Just(None), 1 => (1u8..12, 0u8..8, 70u8..130).prop_map(Some)])
+    (history_opts(kind, true, 30, false), 1usize..=8, 1usize..=4, proptest::collection::vec(any::<u16>(), 64), proptest::collection::vec((0u8..16, 0u16..800), 0..3), proptest::bool::weighted(0.85), prop_oneof![144 => Just(None), 12 => (1u8..12, 0u8..8, 70u8..130).prop_map(Some), (if matches!(kind, crate::trk::Kind::Sort) { 3 } else { 1 }) => (1u8..6, 0u8..8, Just(220u8)).prop_map(Some)])
         .prop_map(|(h, shards, voting_shards, choices, delays, controlled, stall)| ShardCase { h, shards, voting_shards, choices, delays, controlled, stall })
 }
 
